@@ -400,18 +400,29 @@ func (e *schedEngine) Exec(op *Op) string {
 					}
 				}
 				if wt != nil {
+					// "A>B": the window opens at the thread's first park at B after its k-th park at A (e.g. the first lock
+					// acquisition after a hook point, in locks mode)
+					stages := strings.Split(f[1], ">")
 					seen := 0
+					cur := 0
 					for steps < maxSteps && wt.state == "parked" {
-						if wt.point == f[1] {
-							seen++
-							if seen >= k {
+						if wt.point == stages[cur] {
+							if cur == 0 {
+								seen++
+								if seen >= k {
+									cur++
+								}
+							} else {
+								cur++
+							}
+							if cur == len(stages) {
 								break
 							}
 						}
 						e.step(wt)
 						steps++
 					}
-					if wt.state == "parked" && wt.point == f[1] {
+					if wt.state == "parked" && cur == len(stages) {
 						e.log("window:open:" + wt.name + "@" + wt.point)
 						for steps < maxSteps {
 							var parked []*sthread
